@@ -669,7 +669,7 @@ def remove_iiv(model: Model, to_remove: Optional[Union[list[str], str]] = None):
                 expr = sympy.sympify(s.expression).expand()
                 if len(expr.args) == 0:
                     sset = sset.subs({Expr(expr): 0})
-                elif len(expr.args) == 1 and expr.fun == sympy.exp:
+                elif len(expr.args) == 1 and expr.func == sympy.exp:
                     sset = sset.subs({eta_sym: 0})
                 else:
                     expr_subs = expr
